@@ -119,7 +119,8 @@ def calculations(rng, pp):
         ("calc_sc_3ph", "sc", lambda n: sc.calc_sc(n, fault="3ph", case=rng.choice(["max", "min"]), ip=True, branch_results=rng.random() < 0.5)),
         ("calc_sc_2ph", "sc", lambda n: sc.calc_sc(n, fault="2ph", case="max")),
         ("calc_sc_1ph", "sc_1ph", lambda n: sc.calc_sc(n, fault="1ph", case="max")),
-        ("contingency", "powerflow", lambda n: run_contingency(n, {"line": {"index": [int(i) for i in list(n.line.index)[:3]]}})),
+        ("contingency", "powerflow", lambda n: run_contingency(n, {"line": {"index": [int(i) for i in list(n.line.index)[:3]]}},
+                                                              raise_errors=rng.random() < 0.5)),
     ]
 
 
